@@ -2,6 +2,7 @@
 From Coq Require Import String List Bool.
 From Verif Require Import Base.Str C08.Model C08.Spec C08.Proofs.
 Import ListNotations.
+Open Scope list_scope.
 
 (* C08: for every loaded metadata (any number of sources, entities, descriptors, endpoints), every
    operation of the property (IdP answering a request, pick_binding for an entity, SP choosing the
@@ -95,12 +96,16 @@ Theorem c08_disco_sound : forall m eid url,
 Proof. intros m eid url H. pose proof (disco_sound m eid url) as S. cbn [spec] in S. rewrite H in S. exact S. Qed.
 Print Assumptions c08_disco_sound.
 
-Theorem c08_disco_complete : forall s eid ds loc url,
+(* any number of sources; ext_service (unchanged by d8b1d2a4) skips the earlier sources that have
+   nothing to say about the requester's discovery responses.  pre = [] is the one-source case *)
+Theorem c08_disco_complete : forall m pre s post eid ds loc url,
+  m = (pre ++ s :: post)%list ->
+  (forall s', In s' pre -> src_disco B_DISCO eid s' = None \/ src_disco B_DISCO eid s' = Some []) ->
   descriptors s eid R_SP = Some ds ->
   In loc (flat_map (fun d => select B_DISCO (d_disco d)) ds) ->
   String.prefix loc url = true ->
-  verify_return [s] eid url = Approved true.
-Proof. exact disco_complete_single. Qed.
+  verify_return m eid url = Approved true.
+Proof. exact disco_complete. Qed.
 Print Assumptions c08_disco_complete.
 
 Theorem c08_disco_exact : forall m eid url l,
@@ -109,15 +114,83 @@ Theorem c08_disco_exact : forall m eid url l,
 Proof. exact disco_exact. Qed.
 Print Assumptions c08_disco_exact.
 
-(* a registered URL is accepted (the model does not refuse everything) *)
-Theorem c08_answer_complete : forall s eid ds ep b u etype prefs req descr,
+(* a URL registered for the binding in the FIRST source that has the requester is accepted, for any
+   number of sources and whatever later sources say (the model does not refuse everything) *)
+Theorem c08_answer_complete : forall m s eid ds ep b u etype prefs req descr,
+  first_with eid m = Some s ->
   descriptors s eid R_SP = Some ds ->
   In ep (flat_map (fun d => select S_ACS (d_eps d)) ds) ->
   ep_binding ep = b -> ep_location ep = u -> u <> EmptyString ->
   rq_class req = MAuthn -> requester req = eid -> rq_url req = Some u -> b <> B_SOAP ->
-  response_args [s] etype prefs req [b] descr = Dest b (Some u).
-Proof. exact answer_complete_single. Qed.
+  response_args m etype prefs req [b] descr = Dest b (Some u).
+Proof. exact answer_complete. Qed.
 Print Assumptions c08_answer_complete.
+
+(* ---- first source wins (MetadataStore.service after d8b1d2a4), any number of sources ---- *)
+
+(* first_with is "the first source, in load order, that has the entity" *)
+Theorem c08_first_with_spec : forall eid m s,
+  first_with eid m = Some s <->
+  exists pre post, m = (pre ++ s :: post)%list /\ has_entity eid s = true
+                   /\ forall s', In s' pre -> has_entity eid s' = false.
+Proof. exact first_with_spec. Qed.
+Print Assumptions c08_first_with_spec.
+
+(* soundness AND completeness of the endpoint lookup against that source: an endpoint is served for
+   (entity, role, service, binding) iff the first source that has the entity lists it *)
+Theorem c08_lookup_exact : forall m eid typ svc b s ep,
+  first_with eid m = Some s ->
+  ((exists l, store_service m eid typ svc (Some b) = Found l /\ In ep l) <->
+   (exists ds, descriptors s eid typ = Some ds
+               /\ In ep (flat_map (fun d => select svc (d_eps d)) ds) /\ ep_binding ep = b)).
+Proof. exact store_service_exact. Qed.
+Print Assumptions c08_lookup_exact.
+
+(* every operation aimed at one entity (answering a request, pick_binding, sign-on endpoint,
+   preparing an authentication request) gives on the whole store exactly what it gives on the
+   store reduced to the first source that has that entity: later sources never matter *)
+Theorem c08_first_source_decides : forall m s o e,
+  op_target o = Some e -> first_with e m = Some s -> run_op m o = run_op [s] o.
+Proof. exact first_source_decides. Qed.
+Print Assumptions c08_first_source_decides.
+
+(* ... hence whatever is selected is published by THAT source, not merely by some source *)
+Theorem c08_first_source_sound : forall m s o e,
+  op_target o = Some e -> first_with e m = Some s -> spec [s] o (run_op m o).
+Proof. exact first_source_sound. Qed.
+Print Assumptions c08_first_source_sound.
+
+(* a requester no source has gets no destination *)
+Theorem c08_unknown_entity_refused : forall m etype prefs req bindings descr,
+  first_with (requester req) m = None ->
+  no_destination (response_args m etype prefs req bindings descr) \/ bindings = [B_SOAP].
+Proof. exact unknown_entity_refused. Qed.
+Print Assumptions c08_unknown_entity_refused.
+
+(* sign-on: an endpoint the first source lists for the binding is found (completeness), and the sole
+   IdP _sso_location falls back to is described as an IdP by the first source that has it *)
+Theorem c08_sso_complete : forall m s e ds ep b,
+  first_with e m = Some s ->
+  descriptors s e R_IDP = Some ds ->
+  In ep (flat_map (fun d => select S_SSO (d_eps d)) ds) -> ep_binding ep = b ->
+  exists ep', In ep' (flat_map (fun d => select S_SSO (d_eps d)) ds) /\ ep_binding ep' = b
+              /\ sso_of m e b = Loc (Some (ep_location ep')).
+Proof. exact sso_complete. Qed.
+Print Assumptions c08_sso_complete.
+
+Theorem c08_sole_idp_first_source : forall m b d,
+  sso_location m None b = Loc (Some d) ->
+  exists e s ent, with_idp m = [e] /\ first_with e m = Some s /\ In (e, ent) s
+                  /\ entity_has R_IDP ent = true /\ sso_of [s] e b = Loc (Some d).
+Proof. exact sole_idp_first_source. Qed.
+Print Assumptions c08_sole_idp_first_source.
+
+(* logout: every request of the trace was decided by the first source that has its IdP *)
+Theorem c08_slo_first_source : forall m pref expected eids e b d,
+  In (e, b, d) (fst (slo_all m pref expected eids)) ->
+  exists s, first_with e m = Some s /\ slo_one [s] pref expected e = Send b d.
+Proof. exact slo_sent_first_source. Qed.
+Print Assumptions c08_slo_first_source.
 
 (* the pinned snapshot's (inverted) verify_return violated the property *)
 Theorem c08_disco_v0_refuted : exists m eid url, ~ spec m (OpDisco eid url) (verify_return_v0 m eid url).
